@@ -188,12 +188,58 @@ Proof.
     cbn [map]. rewrite H1, H4. split; [reflexivity|]. cbn [first_stop]. destruct o; try exact H5; congruence.
 Qed.
 
+(* ---------------------------------------------------------------- scopes *)
+Lemma addToScope_scalar : forall k v, in_range k v = true ->
+  addToScope cfg_fixed (mk_scalar k v) =
+    Ok (mkKA (PTK k) (PInt v) 0,
+        match k with
+        | KBool => CNBool | KI8 | KU8 => CNChar | KI16 | KU16 => CNShort | KI32 | KU32 => CNInt
+        | KI64 | KU64 => CNLong | KF32 => CNFloat | KF64 => CNDouble
+        end).
+Proof.
+  intros k v H. unfold addToScope. rewrite (kernelArg_scalar _ _ H). destruct k; reflexivity.
+Qed.
+
+(* for every kind that is not unsigned the declared type is the C type of the kind ... *)
+Lemma scope_decl_signed : forall ic k v, in_range k v = true -> is_unsigned k = false ->
+  scope_decl cfg_fixed ic (LScalar k v) = ODecl ic (s_cname k) false.
+Proof.
+  intros ic k v H Hu. unfold scope_decl. cbn [lit_otype]. rewrite (addToScope_scalar _ _ H).
+  destruct k; try discriminate Hu; reflexivity.
+Qed.
+
+(* ... and the inlined kernel reads the value that was added *)
+Lemma scope_reads_signed : forall k v, in_range k v = true -> is_unsigned k = false ->
+  scope_reads cfg_fixed (LScalar k v) = OType (mk_scalar k v).
+Proof.
+  intros k v H Hu. unfold scope_reads. cbn [lit_otype]. rewrite (addToScope_scalar _ _ H).
+  destruct k; try discriminate Hu; cbn [decl_kind ka_pt ka_val];
+    (replace (same_class _ _) with true by reflexivity); cbn [is_float];
+    try reflexivity; rewrite (int_cast_id _ _ H); reflexivity.
+Qed.
+
+Lemma scope_all_run : forall args os, forallb lit_guard args = true -> s_scope_all args = Some os ->
+  map (scope_reads cfg_fixed) args = os /\ first_stop os = None.
+Proof.
+  induction args as [|l args IH]; cbn [s_scope_all forallb]; intros os Hg H.
+  - inversion H. split; reflexivity.
+  - apply andb_true_iff in Hg. destruct Hg as [Hg1 Hg2].
+    destruct (s_scope_one l) as [o|] eqn:El; [|discriminate].
+    destruct (s_scope_all args) as [os'|] eqn:Ea; [|discriminate]. inversion H; subst os.
+    destruct (IH _ Hg2 eq_refl) as [H4 H5].
+    destruct l; cbn [s_scope_one] in El; try discriminate.
+    destruct (in_range k v) eqn:Er; [|discriminate]. inversion El; subst o.
+    cbn [lit_guard] in Hg1. apply negb_true_iff in Hg1.
+    cbn [map]. rewrite (scope_reads_signed _ _ Er Hg1), H4. split; [reflexivity|]. exact H5.
+Qed.
+
 (* ---------------------------------------------------------------- one operation *)
 Theorem step_refines : forall F st s o s' rq,
+  op_guard o = true ->
   R st s -> sstep s o = Some (s', rq) ->
   R (fst (step F cfg_fixed st o)) s' /\ agrees (snd (step F cfg_fixed st o)) rq.
 Proof.
-  intros F st s o s' rq HR H. destruct o; cbn [step].
+  intros F st s o s' rq Hg HR H. destruct o; cbn [step].
   - (* OpC *) cbn in H. inversion H; subst. cbn [fst snd]. split; [exact HR|].
     destruct (s_lit l) eqn:El; cbn; [|exact I]. apply s_lit_lit_otype in El. subst. reflexivity.
   - (* OpAmb *) cbn in H. inversion H; subst. cbn [fst snd]. split; [exact HR|].
@@ -217,6 +263,14 @@ Proof.
   - (* OpKRun *) cbn in H. inversion H; subst. cbn [fst snd]. split; [exact HR|].
     destruct (s_echo_all args) as [os|] eqn:Ea; [|exact I]. destruct (echo_all_run _ _ Ea) as [H1 H2].
     cbn [agrees]. unfold kernel_run. rewrite H1, H2. reflexivity.
+  - (* OpScopeDecl *) cbn in H. inversion H; subst. cbn [fst snd]. split; [exact HR|].
+    destruct l; try exact I; [|reflexivity]. destruct (in_range k v) eqn:Er; [|exact I].
+    cbn [op_guard lit_guard] in Hg. apply negb_true_iff in Hg. cbn [agrees].
+    apply scope_decl_signed; assumption.
+  - (* OpScopeRun *) cbn in H. inversion H; subst. cbn [fst snd]. split; [exact HR|].
+    destruct (s_scope_all args) as [os|] eqn:Ea; [|exact I]. cbn [op_guard] in Hg.
+    destruct (scope_all_run _ _ Hg Ea) as [H1 H2].
+    cbn [agrees]. unfold scope_run. rewrite H1, H2. reflexivity.
   - eapply new_refines; eassumption.
   - eapply free_refines; eassumption.
   - (* OpIsUndef *) cbn in H. inversion H; subst. cbn [fst snd]. split; [exact HR|]. cbn. rewrite (R_tab _ _ HR). reflexivity.
@@ -259,16 +313,18 @@ Proof.
 Qed.
 
 Theorem run_refines_from : forall F ops st s,
+  forallb op_guard ops = true ->
   R st s -> Forall2 agrees (snd (run_from F cfg_fixed st ops)) (s_run_from (Some s) ops).
 Proof.
-  induction ops as [|o ops IH]; intros st s HR.
+  induction ops as [|o ops IH]; intros st s Hgs HR.
   - constructor.
   - cbn [run_from s_run_from].
     destruct (step F cfg_fixed st o) as [st1 ob] eqn:E1.
     destruct (run_from F cfg_fixed st1 ops) as [st2 obs'] eqn:E2. cbn [snd].
+    cbn [forallb] in Hgs. apply andb_true_iff in Hgs. destruct Hgs as [Hg Hgs].
     destruct (sstep s o) as [[s1 rq]|] eqn:Es.
-    + destruct (step_refines F _ _ _ _ _ HR Es) as [HR1 Hag]. rewrite E1 in HR1, Hag. cbn in HR1, Hag.
-      constructor; [exact Hag|]. specialize (IH st1 s1 HR1). rewrite E2 in IH. exact IH.
+    + destruct (step_refines F _ _ _ _ _ Hg HR Es) as [HR1 Hag]. rewrite E1 in HR1, Hag. cbn in HR1, Hag.
+      constructor; [exact Hag|]. specialize (IH st1 s1 Hgs HR1). rewrite E2 in IH. exact IH.
     + constructor; [exact I|]. rewrite s_run_none. apply Forall2_any.
       pose proof (run_from_length F cfg_fixed ops st1) as Hl. rewrite E2 in Hl. exact Hl.
 Qed.
